@@ -177,6 +177,7 @@ fn base_case(prop: &str, seed: u64, run: u64, opts: &Options, mode: Mode, files:
         path_form: PathForm::Explicit,
         path_args: vec![],
         list_poison: None,
+        list_via_pipe: false,
     }
 }
 
@@ -379,6 +380,7 @@ pub fn generate_c16(seed: u64, run: u64, corpus: &Corpus, tier: Tier, stats: &mu
     // a file that does not exist cannot be discovered; name it explicitly
     let form = if file.exists { form } else { PathForm::Explicit };
     let path_args = path_args_for(&mut rng, form, &[path.clone()]);
+    let list_via_pipe = form == PathForm::FilesFrom && rng.chance(1, 3);
     *stats.by_mode.entry(format!("path_form:{}", form.name())).or_insert(0) += 1;
     // fault-free: every mode against the stdin reference
     for mode in [Mode::Files, Mode::Check, Mode::Stdout, Mode::StdinCheck] {
@@ -387,6 +389,7 @@ pub fn generate_c16(seed: u64, run: u64, corpus: &Corpus, tier: Tier, stats: &mu
         if !mode.is_stdin() {
             c.path_form = form;
             c.path_args = path_args.clone();
+            c.list_via_pipe = list_via_pipe;
         }
         cases.push(c);
     }
@@ -399,6 +402,47 @@ pub fn generate_c16(seed: u64, run: u64, corpus: &Corpus, tier: Tier, stats: &mu
             f.readable = file.readable;
             f.writable = file.writable;
             cases.push(base_case("C16", seed, run, &opts, mode, vec![f]));
+        }
+        // ... nearly formatted variants: the result with one small blemish (keyword case, a
+        // doubled space, trailing blanks, a missing final newline); ASCII-compatible encodings only
+        if enc.enc != encoding_rs::UTF_16LE && enc.enc != encoding_rs::UTF_16BE && !reference.stdout.is_empty() {
+            let r = &reference.stdout;
+            let mut b = r.clone();
+            match rng.below(4) {
+                0 => {
+                    // upper-case one keyword-ish ASCII word
+                    let words: [&[u8]; 6] = [b"begin", b"end", b"unit", b"procedure", b"if", b"then"];
+                    let w = *rng.pick(&words);
+                    if let Some(at) = b.windows(w.len()).position(|x| x == w) {
+                        for c in &mut b[at..at + w.len()] {
+                            c.make_ascii_uppercase();
+                        }
+                    }
+                }
+                1 => {
+                    if let Some(at) = b.iter().position(|c| *c == b' ') {
+                        b.insert(at, b' ');
+                    }
+                }
+                2 => {
+                    if b.ends_with(b"\n") {
+                        b.pop();
+                        if b.ends_with(b"\r") {
+                            b.pop();
+                        }
+                    }
+                }
+                _ => {
+                    if let Some(at) = b.iter().position(|c| *c == b'\n') {
+                        b.insert(at, b' ');
+                    }
+                }
+            }
+            if &b != r {
+                for mode in [Mode::Files, Mode::Check] {
+                    cases.push(base_case("C16", seed, run, &opts, mode, vec![SimFile::new(&path, b.clone())]));
+                }
+            }
         }
         // ... and the same formatted text with a trailing comment spelled in a non-canonical
         // byte form of a legacy encoding
@@ -506,6 +550,9 @@ pub fn generate_c16(seed: u64, run: u64, corpus: &Corpus, tier: Tier, stats: &mu
             }
             if form == PathForm::FilesFrom && !c.path_args.is_empty() && rng.chance(1, 4) {
                 c.list_poison = Some(rng.usize_below(c.path_args.len()));
+            }
+            if form == PathForm::FilesFrom && rng.chance(1, 3) {
+                c.list_via_pipe = true;
             }
             if rng.chance(1, 10) {
                 c.extra_args = gen_log_level_args(&mut rng);
@@ -900,7 +947,11 @@ fn sibling_unit(name: &str, skeleton_seed: u64, variant: u64, procs: usize) -> S
                 7 if sk.chance(1, 4) => {
                     // regions the formatter must leave alone (the set of ignored tokens is per file)
                     if sk.chance(1, 2) {
-                        out.push_str(&format!("  // pasfmt off\n  {}   :=   {n} ;\n  // pasfmt on\n", ident(&mut vr, "Keep")));
+                        out.push_str(&format!("  // pasfmt off\n  {}   :=   {n} ;\n", ident(&mut vr, "Keep")));
+                        // (sometimes the region is never switched on again)
+                        if !sk.chance(1, 3) {
+                            out.push_str("  // pasfmt on\n");
+                        }
                     } else {
                         out.push_str("  asm\n    MOV   EAX,  EBX\n  end;\n");
                     }
@@ -1124,6 +1175,9 @@ persistent: false,
     }
     dedup_faults(&mut case.faults);
     case.path_form = form;
+    if form == PathForm::FilesFrom && rng.chance(1, 3) {
+        case.list_via_pipe = true;
+    }
     let all_paths: Vec<String> = case.files.iter().map(|f| f.path.clone()).collect();
     case.path_args = path_args_for(&mut rng, form, &all_paths);
     // multisets: the same file named more than once
